@@ -12,8 +12,8 @@ PATS = [("{mother} -> {daughters}", "({mother} -> {daughters})"),
         ("{daughters} <- {mother}", "{{{daughters} <- {mother}}}")]
 BAD = [("{mother} -> ", "({mother} -> {daughters})"),                        # first pattern lacks a placeholder
        ("{mother} -> {daughters}", "({mother} -> {daughters} {extra})"),     # second pattern has another placeholder
-       ("{mother} => {daughters}", "[{mother} => ]"),                        # valid first, invalid second
-       ("{mother} {0} {daughters}", "({mother} -> {daughters})")]            # positional field
+       ("{mother} => {daughters}", "[{mother} => {0}]"),                     # valid first, invalid second (positional field)
+       ("{mother} {} {daughters}", "({mother} -> {daughters} {!r})")]         # anonymous extra fields
 DEFAULT = {"decay_pattern": PATS[0][0], "sub_decay_pattern": PATS[0][1]}
 
 # op codes
